@@ -370,6 +370,34 @@ fn check_library_iterator(lf: &LenFn, rep: &mut Report) {
         }
         o => rep.violation(&format!("implied-distribution|{}|{}", lf.code.family(), o.class()), || format!("get_implied_distribution(len_{}) did not return: {}", lf.name, match o { Out::Panic(p) => p, _ => String::new() }), kvf),
     }
+    // sampling from the implied distribution can be set up, and every sample lies in a bracket
+    let f3 = move |n: u64| lf.call(n.min(DOM_MAX));
+    let limit: Option<u64> = truth.iter().cloned().take_while(|t| t.1 <= 128).last().map(|t| t.0);
+    let r = guard_v(|| {
+        use rand::SeedableRng;
+        let mut rng = rand::rngs::SmallRng::seed_from_u64(0xC20);
+        let total = Cell::new(0u64);
+        let counted = |n: u64| {
+            total.set(total.get() + 1);
+            if total.get() > 2_000_000 {
+                panic!("{}", crate::backends::BUDGET_MSG);
+            }
+            f3(n)
+        };
+        let v: Vec<u64> = lib::sample_implied_distribution(counted, &mut rng).take(64).collect();
+        v
+    });
+    rep.eval(1);
+    match (r, limit) {
+        (Out::Ok(samples), Some(lim)) => {
+            if let Some(bad) = samples.iter().find(|x| **x >= lim || lf.call(**x) > 128) {
+                rep.violation(&format!("implied-sampling|{}|outside-brackets", lf.code.family()), || format!("sample_implied_distribution(len_{}) produced {} which lies outside the brackets (last change point with length <= 128 is {})", lf.name, bad, lim), kvf);
+            }
+            rep.count("implied_samples_checked", samples.len() as u64);
+        }
+        (Out::Ok(_), None) => {}
+        (o, _) => rep.violation(&format!("implied-sampling|{}|{}", lf.code.family(), o.class()), || format!("sample_implied_distribution(len_{}) could not be set up: {}", lf.name, match o { Out::Panic(p) => p, _ => String::new() }), kvf),
+    }
 }
 
 /// synthetic monotone step function: f(n) = base + #{s in steps : s <= n}
